@@ -166,6 +166,7 @@ def run(ctx):
     if not proved and ok_extract:
         for v in failing + suspicious:
             v["unproved"] = ctx.proof_failure
+    failing.sort(key=lambda v: v["kind"] != "response-depends-on-history")   # stable: wrong responses first
     for v in failing[:3]:
         ctx.violation(finalize(v))
     if not failing:
